@@ -79,11 +79,16 @@ const TypeInfo &type_info(int t) {
   static const uint8_t u0[4] = {1, 2, 3, 4}, u1[4] = {1, 2, 3, 5};
   static const int32_t i0[1] = {7}, i1[1] = {INT32_MIN};
   static const int16_t s0[5] = {1, 2, 3, 4, 5}, s1[5] = {1, 2, 3, 4, -5};
-  static const TypeInfo k[4] = {
+  // 64-bit types: 0.0 vs -0.0 as doubles; two integers that differ in the upper half only
+  static const uint64_t d0[2] = {0x0000000000000000ull, 0x3ff0000000000000ull}, d1[2] = {0x8000000000000000ull, 0x3ff0000000000000ull};
+  static const uint64_t q0[1] = {0x0000000100000007ull}, q1[1] = {0x0000000200000007ull};
+  static const TypeInfo k[6] = {
       make_type("f32x3", GeometryAttribute::NORMAL, DT_FLOAT32, 3, f0, f1),
       make_type("u8x4", GeometryAttribute::COLOR, DT_UINT8, 4, u0, u1),
       make_type("i32x1", GeometryAttribute::GENERIC, DT_INT32, 1, i0, i1),
       make_type("i16x5", GeometryAttribute::GENERIC, DT_INT16, 5, s0, s1),
+      make_type("f64x2", GeometryAttribute::GENERIC, DT_FLOAT64, 2, d0, d1),
+      make_type("u64x1", GeometryAttribute::GENERIC, DT_UINT64, 1, q0, q1),
   };
   return k[t];
 }
@@ -452,6 +457,22 @@ bool check_strips(const Mesh &mesh, const Snap &s, const LazyClass &cls, mc::Ctx
         ctx.fail(std::string("strip:index-out-of-range|") + mname, cls + " strip: " + show_idx(out));
         return false;
       }
+    // the same call writing through a plain pointer into a preallocated buffer (the use the header describes: "stores the
+    // values in a buffer that can be used directly on the GPU") must produce the same indices
+    {
+      static std::vector<uint32_t> buf;
+      buf.assign(out.size() + 8, 0xDEADBEEFu);
+      MeshStripifier st2;
+      uint32_t *dst = buf.data();
+      const bool ok2 = mode == 0 ? st2.GenerateTriangleStripsWithPrimitiveRestart(mesh, uint32_t(0xffffffffu), dst)
+                                 : st2.GenerateTriangleStripsWithDegenerateTriangles(mesh, dst);
+      if (!ok2 || !std::equal(out.begin(), out.end(), buf.begin()) || buf[out.size()] != 0xDEADBEEFu) {
+        buf.resize(out.size());
+        ctx.fail(std::string("strip:pointer-output-differs-from-back-inserter|") + mname + (st.num_strips() > 1 ? ",multiple-strips" : ",single-strip"),
+                 cls + " back_inserter: " + show_idx(out) + " pointer: " + show_idx(buf));
+        return false;
+      }
+    }
     int nskipped = 0;
     decode_strips(out, mode == 0, 0xffffffffu, &got, &nskipped);
     if (got != expect) {
@@ -560,9 +581,9 @@ bool check_cleanup(const Mesh &mesh, Mesh *out, const Snap &in, const FaceInfo *
       }
   if (opt.remove_duplicate_faces)
     for (uint32_t f = 0; f < nf; ++f) {
-      if (removed_ref[f] || !fin[f].ids_distinct) continue;  // only triples of three distinct ids are required
+      if (removed_ref[f]) continue;  // equal up to rotation, also when an id occurs twice in the triple ((0,1,0) ~ (0,0,1))
       for (uint32_t g = 0; g < f; ++g)
-        if (!removed_ref[g] && fin[g].ids_distinct && fin[g].pcls == fin[f].pcls) {
+        if (!removed_ref[g] && fin[g].pcls == fin[f].pcls) {
           removed_ref[f] = true;
           keys[key_of[f]].n_required++;
           break;
@@ -616,9 +637,9 @@ bool check_cleanup(const Mesh &mesh, Mesh *out, const Snap &in, const FaceInfo *
       ctx.fail("cleanup:position-degenerate-face-kept|" + oname, cls + " output face " + std::to_string(g));
       return false;
     }
-    if (opt.remove_duplicate_faces && fout[g].ids_distinct)
+    if (opt.remove_duplicate_faces)
       for (uint32_t h = 0; h < g; ++h)
-        if (fout[h].ids_distinct && fout[h].pcls == fout[g].pcls) {  // (iii)
+        if (fout[h].pcls == fout[g].pcls) {  // (iii)
           ctx.fail("cleanup:duplicate-point-triple-kept|" + oname, cls + " output faces " + std::to_string(h) + "," + std::to_string(g));
           return false;
         }
@@ -1178,7 +1199,7 @@ int main(int argc, char **argv) {
   const std::vector<int> A5 = {0, 1, 2, 3, 4};
   const std::vector<int> A4 = {0, 1, 3, 4};  // +0, -0, NaN_a, NaN_b
   const std::vector<int> A3 = {0, 1, 3};     // +0, -0, NaN_a
-  const char *tn[4] = {"f32x3", "u8x4", "i32x1", "i16x5"};
+  const char *tn[6] = {"f32x3", "u8x4", "i32x1", "i16x5", "f64x2", "u64x1"};
   // F = 0: the empty soup, without and with a second attribute
   add_soup_space(R, "soup_F0_pos", {0, A5, {}}, true, true);
   for (int t = 0; t < 4; ++t) add_soup_space(R, std::string("soup_F0_") + tn[t], {0, A5, {{t, false}}}, true, true);
@@ -1194,6 +1215,13 @@ int main(int argc, char **argv) {
       add_soup_space(R, p + "_face_" + tn[t], {F, A5, {{t, true}}}, F == 1 || t == 0 || t == 3, true);
       add_soup_space(R, p + "_corner_" + tn[t], {F, A5, {{t, false}}}, F == 1, true);
     }
+  }
+  // 64-bit data types (F = 1 per face and per corner, F = 2 per face; F = 2 per corner in thorough)
+  for (int t = 4; t < 6; ++t) {
+    add_soup_space(R, std::string("soup_F1_face_") + tn[t], {1, A5, {{t, true}}}, true, true);
+    add_soup_space(R, std::string("soup_F1_corner_") + tn[t], {1, A5, {{t, false}}}, true, true);
+    add_soup_space(R, std::string("soup_F2_face_") + tn[t], {2, A5, {{t, true}}}, true, true);
+    add_soup_space(R, std::string("soup_F2_corner_") + tn[t] + "_pos3", {2, A3, {{t, false}}}, true, true);
   }
   add_soup_space(R, "soup_F2_corner_f32x3_pos4", {2, A4, {{0, false}}}, true, false);
   for (int t = 1; t < 4; ++t)
